@@ -91,6 +91,8 @@ def extras():
                            why='length of the FRI description vectors against n_layers: rejects malformed input (C18), accepts nothing new'))
     return e
 
+THOROUGH_MAIN_CONFIGS = ['b248s6', 'nostd']
+
 
 def run(ctx, rep):
     tab = table()
